@@ -85,6 +85,26 @@ def gen_scenarios(tier):
                  progs.step_run('u2', use, ['b0']), progs.step_scan('u2')]
         scs.append(progs.scenario(len(scs) + 1, steps, exec_='local' if k % 3 else 'bigmachine', parallelism=1 if k % 2 else 2,
                                   machprocs=1, timeout_s=90))
+    # dedicated: a Discard that its caller has given up on (cancelled context: its calls to the workers fail) runs
+    # alongside, or just before, a run that reuses the result; nothing may be left waiting forever
+    for k in range(12 if tier == 'quick' else 60):
+        g = progs.Gen(rng)
+        p0, k0 = g.program(rng.choice([0, 1, 2]), taps=[])
+        if k0[0] == 'weak' or any(n['op'] in ('scanreader', 'head') for n in p0['nodes']):
+            continue
+        p0['taps'] = []
+        g2 = progs.Gen(rng, nargs=1, argkinds=[k0])
+        a = g2.add(progs.N('arg', arg=0), k0[0], k0[1])
+        m = g2.add(progs.N('map', **{'in': [a]}, f='inc'), k0[0], k0[1])
+        use = {'nodes': g2.nodes, 'out': m, 'taps': []}
+        dc = dict(progs.step_discard('b0'), cancelled=True)
+        arm = {'do': 'kills', 'as': '', 'res': '', 'args': [], 'kills': [{'method': 'Worker.Discard', 'ordinal': o, 'phase': 'fail', 'bytes': 0} for o in range(1, 9)]}
+        if k % 2:
+            steps = [progs.step_run('b0', p0), arm, dc, progs.step_run('u', use, ['b0']), progs.step_scan('u'), progs.step_scan('b0')]
+        else:
+            steps = [progs.step_run('b0', p0), arm, progs.step_par([[progs.step_run('u', use, ['b0']), progs.step_scan('u')], [dc]]),
+                     progs.step_run('u2', use, ['b0']), progs.step_scan('u2')]
+        scs.append(progs.scenario(len(scs) + 1, steps, exec_='bigmachine', parallelism=2, machprocs=2, timeout_s=25, interpose=True))
     return scs
 
 
